@@ -1412,8 +1412,12 @@ func checkGetter(c *core.Ctx, g *model.GenPkg, m *model.Msg, f *model.Field) {
 	case k == protoreflect.EnumKind:
 		// the enum's first value constant (number 0 in proto3)
 		zeros = []string{"0"}
+		// … by name only for an enum of this very package: how another package names its constants is up to whatever
+		// generated it (golang/protobuf#513), the conversion pkg.Enum(0) always compiles
 		if ev := f.Desc.Enum().Values(); ev.Len() > 0 {
-			zeros = append(zeros, enumConstName(g, f, ev.Get(0)))
+			if cn := enumConstName(g, f, ev.Get(0)); !strings.Contains(cn, ".") {
+				zeros = append(zeros, cn)
+			}
 		}
 	case k == protoreflect.BoolKind:
 		zeros = []string{"false"}
